@@ -1,6 +1,190 @@
-(* C18 — stub while the cone is being built (replaced below). *)
-From Quiver Require Import Base Pretty PrettyProofs.
+(* C18 — The front end is total: any text yields a program or a located error.
+   Level: proof, PARTIAL.  This file contains ONLY the property theorems, each closed by `exact`.
 
+   The property is about Rust-level partiality (unwrap / expect / unreachable! / slicing / stack
+   exhaustion) and non-termination in parser.rs + compiler.rs (~13 kLoC).  No Gallina model covers
+   them, and a total Gallina function proves nothing about Rust panics.  The FULL statement
+
+     forall text, nesting text <= 100 ->
+       (exists prog, parse text = Ok prog /\ (exists bc, compile prog = Ok bc) \/ (exists e, compile prog = Err e))
+       \/ (exists kind span, parse text = Err (kind, span) /\ span.offset <= len text /\ line/column of span agree with text)
+
+   is NOT a theorem here: it is SEARCHED on the real code by vplib/props/c18.py (harness qv_front:
+   parse + Compiler::compile in child processes with an 8 MiB stack and a CPU watchdog; oracles: no
+   panic / abort / timeout, position in range and consistent, determinism).  Known finding there:
+   F77 (parse time exponential in the nesting depth of parentheses; parser.rs has no nesting guard,
+   so there is no guard to model).
+
+   What IS proved: the TERMINATION ARGUMENTS of the front end's recursive algorithms, with explicit
+   bounds, on the executable models that C09 / C17 tie to the code by differential execution —
+   exactly where this code base has failed before (F55: stack overflow of check_type_relation).
+     1. check_type_relation (types.rs:245-547; Rel.check_rel): FULL, recursive types included —
+        for every registry with topologically ordered ids and n types, both modes, every pair of
+        ids, every model variant that records the callable assumption (in particular the code as it
+        is): fuel B(n) = n^2 (4n+5) + 4n + 4 suffices, i.e. the recursion depth is at most B(n).
+        The two hypotheses are necessary: witnesses exceed the bound without them (F55 as found;
+        an id cycle through the tuple table).
+     2. contains_cycle (narrowing.rs:277-295): depth <= n + 1.  union_type_ids: not recursive.
+        NOT PROVED: intersect_types / compute_complement / subtract_one.  Missing: an invariant
+        that the ids RETURNED by the narrowing functions (newly registered tuple types whose fields
+        are themselves results) stay topologically ordered and no deeper than their operands —
+        compute_complement feeds its own results back into subtract_one, so descent on the id of
+        the operands does not cover them.  Their recursion depth is measured on every run
+        (candidate bound 2n+2, evidence keys model_layer.narrow_...), not proved.
+     3. string post-processing with the located error (parser.rs:685-754): total; the error span
+        lies inside the segment and starts at the offending backslash (a character boundary).
+        normalize_blocks and print: total (print re-exported from C17 with attribution). *)
+From Quiver Require Import Base Types Rel Narrow RelProofs.
+From Quiver Require Import Ast Simplify Escape Pretty PrettyProofs.
+From Quiver.front Require Import Totality RelTermProofs RelTermWitness NarrowTermProofs StringLoc StringLocProofs.
+From Coq Require Import Arith.
+
+(* ---- 1. check_type_relation --------------------------------------------------------------- *)
+(* the code as it is in /repo (current_cfg: assumptions recorded for unions AND callables, retracted
+   on failure, two stacks), both modes, from the empty state of is_compatible / types_overlap *)
+Theorem C18_check_rel_terminates : forall (P : registry) (mode : union_mode) (fuel a b : nat),
+  topob P = true -> (rel_bound (ntypes P) <= fuel)%nat ->
+  exists r A', check_rel current_cfg P mode fuel [] [] [] a b = Some (r, A').
+Proof. exact check_rel_terminates_current. Qed.
+Print Assumptions C18_check_rel_terminates.
+
+(* the bound, written out: cubic in the number of registered types *)
+Theorem C18_rel_bound_formula : forall n : nat,
+  rel_bound n = (n * n * (4 * n + 5) + 4 * n + 4)%nat.
+Proof. exact rel_bound_formula. Qed.
+Print Assumptions C18_rel_bound_formula.
+
+(* every variant of the model that records the assumption in the Callable arm (whatever the other
+   switches: with or without retraction, one or two stacks, ...) *)
+Theorem C18_check_rel_terminates_gen : forall (cfg : rel_cfg) (P : registry) (mode : union_mode) (fuel a b : nat),
+  cfg_callable_assume cfg = true -> topob P = true -> (rel_bound (ntypes P) <= fuel)%nat ->
+  check_rel cfg P mode fuel [] [] [] a b <> None.
+Proof. exact check_rel_terminates_gen. Qed.
+Print Assumptions C18_check_rel_terminates_gen.
+
+(* the general form: from ANY reachable state (assumption set A, both stacks holding ids of unions /
+   callables), with U in-range pairs not yet assumed, at a pair of weight <= m *)
+Theorem C18_check_rel_fuel_enough : forall (cfg : rel_cfg) (P : registry) (mode : union_mode),
+  cfg_callable_assume cfg = true -> topo P ->
+  forall (U m f : nat) (A : assumptions) (ss ps : list nat) (s p : nat),
+  (unassumed (ntypes P) A <= U)%nat -> stack_ok P ss -> stack_ok P ps ->
+  (s < ntypes P)%nat -> (p < ntypes P)%nat -> (w P s p <= m)%nat -> (rel_need (ntypes P) U m <= f)%nat ->
+  exists r A', check_rel cfg P mode f A ss ps s p = Some (r, A') /\ ext A' A.
+Proof. exact check_rel_fuel_enough. Qed.
+Print Assumptions C18_check_rel_fuel_enough.
+
+Theorem C18_is_compatible_terminates : forall (P : registry) (fuel a b : nat),
+  topob P = true -> (rel_bound (ntypes P) <= fuel)%nat ->
+  exists r, is_compatible_with current_cfg fuel P a b = Some r.
+Proof. exact is_compatible_terminates. Qed.
+Print Assumptions C18_is_compatible_terminates.
+
+Theorem C18_types_overlap_terminates : forall (P : registry) (fuel a b : nat),
+  topob P = true -> (rel_bound (ntypes P) <= fuel)%nat ->
+  exists r, types_overlap_with current_cfg fuel P a b = Some r.
+Proof. exact types_overlap_terminates. Qed.
+Print Assumptions C18_types_overlap_terminates.
+
+(* non-vacuity: the minimised F55 shape (recursive function types) and a recursive list type meet the
+   hypothesis and are answered far inside the bound *)
+Example C18_check_rel_nonvacuous :
+  topob reg_F55 = true /\ rel_bound (ntypes reg_F55) = 649%nat /\
+  is_compatible_with current_cfg 649 reg_F55 4 3 = Some true /\
+  is_compatible_with current_cfg 11 reg_F55 4 3 = Some true /\
+  is_compatible_with current_cfg 10 reg_F55 4 3 = None /\
+  topob reg_list = true /\ is_compatible_with current_cfg 2404 reg_list 4 7 = Some false /\
+  types_overlap_with current_cfg 2404 reg_list 4 7 = Some true.
+Proof.
+  exact (conj reg_F55_topo
+        (conj (proj1 F55_current_terminates)
+        (conj (proj1 (proj2 F55_current_terminates))
+        (conj (proj1 (proj2 (proj2 F55_current_terminates)))
+        (conj (proj2 (proj2 (proj2 F55_current_terminates)))
+        (conj (proj1 reg_list_checks)
+        (conj (proj1 (proj2 (proj2 reg_list_checks)))
+              (proj1 (proj2 (proj2 (proj2 reg_list_checks))))))))))).
+Qed.
+
+(* the hypothesis on the Callable arm is necessary: the variant before fix e7dcc7d (finding F55)
+   exceeds the bound — and ten times the bound — on a topologically ordered 5-type registry *)
+Theorem C18_check_rel_bound_fails_without_callable_assumption :
+  topob reg_F55 = true /\
+  check_rel partial_cfg reg_F55 All (rel_bound (ntypes reg_F55)) [] [] [] 4 3 = None /\
+  check_rel partial_cfg reg_F55 All (10 * rel_bound (ntypes reg_F55)) [] [] [] 4 3 = None.
+Proof. exact (conj reg_F55_topo F55_partial_cfg_exceeds_bound). Qed.
+Print Assumptions C18_check_rel_bound_fails_without_callable_assumption.
+
+(* ... and in fact no fuel at all is enough: F55 (stack overflow of check_type_relation on recursive
+   function types) as a theorem about the pre-fix variant of the model *)
+Theorem C18_check_rel_diverges_without_callable_assumption : forall fuel : nat,
+  check_rel partial_cfg reg_F55 All fuel [] [] [] 4 3 = None.
+Proof. exact F55_partial_cfg_diverges. Qed.
+Print Assumptions C18_check_rel_diverges_without_callable_assumption.
+
+(* the hypothesis on the registry is necessary: two tuple types that refer to each other by id *)
+Theorem C18_check_rel_bound_fails_on_id_cycle :
+  topob reg_idcycle = false /\
+  check_rel current_cfg reg_idcycle All (100 * rel_bound (ntypes reg_idcycle)) [] [] [] 0 1 = None.
+Proof. exact idcycle_not_topo_and_exceeds. Qed.
+Print Assumptions C18_check_rel_bound_fails_on_id_cycle.
+
+(* ---- 2. narrowing helpers ------------------------------------------------------------------- *)
+Theorem C18_contains_cycle_terminates : forall (cfg : rel_cfg) (P : registry) (fuel : nat) (seen : list nat) (t : nat),
+  topob P = true -> (cc_bound (ntypes P) <= fuel)%nat ->
+  exists r, contains_cycle cfg fuel P seen t = Some r.
+Proof. exact contains_cycle_terminates. Qed.
+Print Assumptions C18_contains_cycle_terminates.
+
+Theorem C18_union_type_ids_total : forall (P : registry) (ids : list nat),
+  exists P' id, union_type_ids P ids = (P', id).
+Proof. exact union_type_ids_total. Qed.
+Print Assumptions C18_union_type_ids_total.
+
+(* narrow_terminates, the statement that is NOT proved (kept in full):
+     forall P fuel rel_fuel a b, topob P = true -> tuple ids in range ->
+       narrow_bound (ntypes P) <= fuel -> (rel_fuel suffices for every registry met on the way) ->
+       intersect_types current_cfg rel_fuel fuel P a b <> None /\
+       compute_complement current_cfg rel_fuel fuel P a b <> None *)
+
+(* ---- 3. string post-processing, block normalisation, layout ------------------------------------ *)
+(* parse_string_content with its position bookkeeping: a result or a located error, the location
+   inside the segment; the erased result is C17's `unescape` *)
+Theorem C18_unescape_total : forall s : list Z,
+  (exists r, parse_string_content_loc s = PscOk r /\ unescape s = Some r) \/
+  (exists off len esc, parse_string_content_loc s = PscErr off len esc /\ unescape s = None /\
+                       (off < byte_len s)%nat /\ (off + len <= byte_len s)%nat).
+Proof. exact unescape_total_located. Qed.
+Print Assumptions C18_unescape_total.
+
+(* with the segment starting at byte `base` of the source (span.location_offset()): the reported
+   span [off, off+len) lies in [base, base + len(segment)) and starts after a whole prefix of
+   characters (at the backslash) *)
+Theorem C18_escape_error_offset_in_range : forall (s : list Z) (base off len : nat) (esc : list Z),
+  psc s base = PscErr off len esc ->
+  (base <= off)%nat /\ (off < base + byte_len s)%nat /\ (off + len <= base + byte_len s)%nat /\
+  exists pre, firstn (length pre) s = pre /\ off = (base + byte_len pre)%nat.
+Proof. exact escape_error_offset_in_range. Qed.
+Print Assumptions C18_escape_error_offset_in_range.
+
+(* latent (the only caller drops the error value): `length: 2` counts a multi-byte escaped character
+   as one byte, so the END of the span can fall inside a character *)
+Theorem C18_escape_error_span_end_not_boundary :
+  exists s off len esc, parse_string_content_loc s = PscErr off len esc /\
+    (off + len < byte_len s)%nat /\
+    forall pre, firstn (length pre) s = pre -> byte_len pre <> (off + len)%nat.
+Proof. exact escape_error_span_end_not_boundary. Qed.
+Print Assumptions C18_escape_error_span_end_not_boundary.
+
+(* normalize_blocks (simplify.rs, run by the compiler at compiler.rs:548) is structurally recursive on
+   the AST: in the model that IS the termination argument (Coq's guard checker accepted it without
+   fuel); the statement below records only that, it carries no further content *)
+Theorem C18_normalize_blocks_total : forall (p : program) (o : options),
+  exists q, normalize_blocks p o = q.
+Proof. exact (fun p o => ex_intro _ (normalize_blocks p o) eq_refl). Qed.
+Print Assumptions C18_normalize_blocks_total.
+
+(* pretty.rs print: total with the explicit fuel `enough_fuel d`.  Proved by C17 (PrettyProofs.print_total,
+   props/C17.v C17_print_total); re-exported here, not re-proved. *)
 Theorem C18_print_total : forall (d : doc) (width : nat), exists out, Pretty.print d width = Some out.
 Proof. exact print_total. Qed.
 Print Assumptions C18_print_total.
